@@ -7,16 +7,17 @@ HasSrc(s, src) ==
     CASE s = "stack" -> src \in {"env", "preini", "ini"}
       [] s = "inikey" -> src \in {"env", "preini", "ini"}
       [] s = "mask" -> src \in {"env", "pre", "cmd"}
-      [] OTHER -> src \in {"env", "pre", "ini", "cmd"}
+      [] OTHER -> src \in {"env", "pre", "pini", "ini", "cmd"}
 Settings == {"threads", "scheduler", "bind", "stack", "inikey", "mask"}
 ValsOf(s) == IF s = "threads" THEN Vals \cup {"K"} ELSE Vals
-Cases == UNION {{[setting |-> s, env |-> e, pre |-> p, ini |-> i, cmd |-> m] :
-            e \in ValsOf(s), p \in ValsOf(s), i \in ValsOf(s), m \in ValsOf(s)} : s \in Settings}
+Cases == UNION {{[setting |-> s, env |-> e, pre |-> p, pini |-> q, ini |-> i, cmd |-> m] :
+            e \in ValsOf(s), p \in ValsOf(s), q \in Vals, i \in ValsOf(s), m \in ValsOf(s)} : s \in Settings}
 Valid(x) == /\ (x.env # "-" => HasSrc(x.setting, "env"))
             /\ (x.pre # "-" => (HasSrc(x.setting, "pre") \/ HasSrc(x.setting, "preini")))
+            /\ (x.pini # "-" => HasSrc(x.setting, "pini"))
             /\ (x.ini # "-" => HasSrc(x.setting, "ini"))
             /\ (x.cmd # "-" => HasSrc(x.setting, "cmd"))
-            /\ (x.setting = "inikey" => "X" \notin {x.env, x.pre, x.ini, x.cmd})   \* any string is a valid entry
+            /\ (x.setting = "inikey" => "X" \notin {x.env, x.pre, x.pini, x.ini, x.cmd})   \* any string is a valid entry
 Init == c \in {x \in Cases : Valid(x)}
 Next == UNCHANGED c
 Spec == Init /\ [][Next]_c
